@@ -45,6 +45,10 @@ fn fresh_id(style: usize, n: usize, rng: &mut impl Rng) -> u64 {
             3 => 1u64 << 63,
             _ => rng.random::<u64>(),
         },
+        // byte-structured identifiers: items come in pairs that differ only by two swapped bytes (an identity hasher
+        // that folds or reorders bytes wrongly makes them collide); odd n draws a new word, even n swaps two bytes of
+        // the previous one - the caller passes the previous identifier through `prev`
+        5 => rng.random::<u64>() | 0x0100_0000_0001_0000,
         0 => rng.random::<u64>(),
         1 => n as u64,                          // small consecutive integers
         2 => u64::MAX - n as u64,
@@ -156,7 +160,9 @@ fn one_run(run: u64, si: usize, s: &Value, kind: &str, ms: &[usize], rng: &mut i
         pc[ninst - 1] = 2;
     }
     // concrete items
-    let idstyle = if kind.ends_with("_no") && rng.random_range(0..2) == 0 { 4 } else { rng.random_range(0..4) };
+    let nohash = kind.contains("_no");
+    let narrow = kind.ends_with("_no32"); // 4-byte items
+    let idstyle = if nohash && rng.random_range(0..3) != 0 { 4 + rng.random_range(0..2usize) } else { rng.random_range(0..4) };
     let wstyle = rng.random_range(0..5);
     let mut items: Vec<Item> = Vec::new();
     for n in 0..nitems {
@@ -166,8 +172,27 @@ fn one_run(run: u64, si: usize, s: &Value, kind: &str, ms: &[usize], rng: &mut i
             _ => weight(wstyle, rng),
         };
         let mut it = Item { id: fresh_id(idstyle, n + 1, rng), w: if is_pmh { w } else { 1.0 } };
+        if idstyle == 5 && n % 2 == 1 {
+            // the previous identifier with two of its (distinct) bytes swapped, same weight
+            let prev: &Item = &items[n - 1];
+            let mut b = prev.id.to_le_bytes();
+            let top = if narrow { 4 } else { 8 };
+            // adjacent bytes half of the time (the likeliest slip in a byte-assembling hasher), any two otherwise
+            let (i, j) = if rng.random_range(0..2) == 0 {
+                let i = rng.random_range(0..top - 1);
+                (i, i + 1)
+            } else {
+                (rng.random_range(0..top), rng.random_range(0..top))
+            };
+            b.swap(i, j);
+            it.id = u64::from_le_bytes(b);
+            it.w = prev.w;
+        }
+        if narrow {
+            it.id &= 0xffff_ffff;
+        }
         while it.id == INITOBJ || items.iter().any(|o: &Item| o.id == it.id) {
-            it.id = rng.random::<u64>();
+            it.id = rng.random::<u64>() & if narrow { 0xffff_ffff } else { u64::MAX };
         }
         items.push(it);
     }
@@ -247,6 +272,9 @@ fn one_run(run: u64, si: usize, s: &Value, kind: &str, ms: &[usize], rng: &mut i
                 .collect()
         })
     };
+    // items held by each instance (for the twin built at the end of the history)
+    let mut held: Vec<std::collections::BTreeSet<usize>> = vec![Default::default(); ninst];
+    let mut broken = false;
     for op in ops {
         let name = op[0].as_str().unwrap();
         let i = op[1].as_u64().unwrap() as usize;
@@ -287,6 +315,22 @@ fn one_run(run: u64, si: usize, s: &Value, kind: &str, ms: &[usize], rng: &mut i
                     continue; // the sketcher does not offer this call: not part of its history
                 }
                 ev["out"] = json!(o);
+                match name {
+                    "sk" => {
+                        held[i - 1].insert(op[2].as_u64().unwrap() as usize);
+                    }
+                    "sl" => {
+                        for x in op[2].as_array().unwrap() {
+                            held[i - 1].insert(x.as_u64().unwrap() as usize);
+                        }
+                    }
+                    "mg" if o == O_OK => {
+                        let other = held[op[2].as_u64().unwrap() as usize - 1].clone();
+                        held[i - 1].extend(other);
+                    }
+                    "re" => held[i - 1].clear(),
+                    _ => {}
+                }
                 let sk = &insts[i - 1];
                 let r = sk.regs();
                 if let Some(sg) = sig_of(sk) {
@@ -305,7 +349,43 @@ fn one_run(run: u64, si: usize, s: &Value, kind: &str, ms: &[usize], rng: &mut i
                 ev["call"] = json!(name);
                 ev["msg"] = json!(msg);
                 evs.push(RawEvent { v: ev, regs: None, hid: None });
+                broken = true;
                 break;
+            }
+        }
+    }
+    // twins: for every instance a NEW sketcher of its class is fed the same set of items in the opposite order, in one
+    // call or item by item - the sketch is a function of the set, stored identities included
+    if !broken {
+        for i in 1..=ninst {
+            if held[i - 1].is_empty() {
+                continue;
+            }
+            let its: Vec<Item> = held[i - 1].iter().rev().map(|x| citem(&items[*x - 1], pc[i - 1])).collect();
+            let mut ev = json!({"op": "tw", "run": run, "i": i, "out": "ok"});
+            let res = catch(|| {
+                let mut t = make(&classes[pc[i - 1] - 1]);
+                let ents = t.entries();
+                let e = ents[rng.random_range(0..ents.len())];
+                let o = t.batch(&its, e);
+                (t, o)
+            });
+            match res {
+                Ok((t, o)) if o == O_OK => {
+                    let r = t.regs();
+                    if let Some(sg) = sig_of(&t) {
+                        ev["sig"] = json!(sg);
+                    }
+                    evs.push(RawEvent { v: ev, regs: if public { Some(r.clone()) } else { None }, hid: if public { None } else { Some(r) } });
+                }
+                Ok(_) => {}
+                Err(msg) => {
+                    ev["op"] = json!("panic");
+                    ev["call"] = json!("twin");
+                    ev["msg"] = json!(msg);
+                    evs.push(RawEvent { v: ev, regs: None, hid: None });
+                    break;
+                }
             }
         }
     }
@@ -336,7 +416,11 @@ fn one_run(run: u64, si: usize, s: &Value, kind: &str, ms: &[usize], rng: &mut i
     let tb: Vec<Vec<Vec<i64>>> = tables.iter().map(|c| c.iter().map(|t| t.iter().map(&rk).collect()).collect()).collect();
     out.line(&json!({"op": "new", "run": run, "sched": si, "cfg": classes.iter().map(|c| c.json()).collect::<Vec<_>>(), "m": m, "ninst": ninst, "pc": pc,
         "dir": if is_min(kind) {"min"} else {"max"}, "pub": public, "sig": has_sig, "raw": raw, "init": rk(&initk), "tables": tb,
-        "ms": pc.iter().map(|c| classes[*c - 1].m).collect::<Vec<usize>>(), "fullkind": full_kind, "wscale_log2": wscale.log2(), "minw": if items.is_empty() { 1.0 } else { items.iter().map(|i| i.w).fold(f64::INFINITY, f64::min) },
+        "ms": pc.iter().map(|c| classes[*c - 1].m).collect::<Vec<usize>>(),
+        // signature class per instance: instances of one class that hold the same set must show the same stored identities
+        // (composite kinds - ProbMinHash3 with 3a, weights scaled by a power of two - form one class by the property)
+        "sc": pc.iter().map(|c| if kind2.is_some() { 1 } else { *c }).collect::<Vec<usize>>(),
+        "fullkind": full_kind, "wscale_log2": wscale.log2(), "minw": if items.is_empty() { 1.0 } else { items.iter().map(|i| i.w).fold(f64::INFINITY, f64::min) },
         "items": items.iter().map(|i| json!([i.id.to_string(), i.w])).collect::<Vec<_>>()}));
     for e in evs {
         let mut v = e.v;
